@@ -182,14 +182,18 @@ func replayCmd(path string, args []string) int {
 			return 2
 		}
 		baseSearchConfig()
-		p, _ := position.NewPositionFen(fen)
+		p := casePos(fen)
 		s := search.NewSearch()
 		drv := &capDriver{}
 		s.SetUciHandler(drv)
+		if prev, _ := art.Replay["searched_before"].(string); prev != "" {
+			runSearch(s, casePos(prev), search.Limits{Depth: 2, Nodes: 4000})
+			drv.reset()
+		}
 		before := takeSnap(p, nil)
 		res := runSearch(s, p, sl)
 		fmt.Println("result:", res.String(), "(default configuration; the artefact's configuration is", art.Replay["config"], ")")
-		c05Oracle(run, refchess.MustFEN(fen), fen, before, p, res, drv, map[string]interface{}{})
+		c05Oracle(run, mustCaseRef(fen), fen, before, p, res, drv, map[string]interface{}{})
 	default:
 		fmt.Println(string(b))
 		return 2
